@@ -110,7 +110,8 @@ class Sim:
         self.pending_kinds = {}
         self.names_seen = set()
         self.stamps = {}  # path -> (stamp_ns, size) of the last external write
-        self.taint = {"folder_moved_or_removed": False, "external_change": False, "create_without_write": False}
+        self.taint = {"folder_moved_or_removed": False, "external_change": False, "create_without_write": False,
+                      "file_moved_to_ignored_name": False}
         self.copies = 0
 
     # -- helpers ------------------------------------------------------------
@@ -404,6 +405,13 @@ class Sim:
                 if isdir(st["p"]):
                     self.taint["folder_moved_or_removed"] = True
                 W.get_resource(st["p"]).move(st["dest"])
+            elif a == "c_rename_to_ignored":
+                # e.g. keeping a backup copy: notes.py -> notes.py~ (matches the default ignored_resources)
+                if not isfile(st["p"]) or self._pending_under(st["p"]) or (st["p"] + "~") in t:
+                    return "skip"
+                W.get_resource(st["p"]).move(st["p"] + "~")
+                self.taint["file_moved_to_ignored_name"] = True
+                out.stats["probe_moved_to_ignored_name"] += 1
             elif a == "c_remove":
                 if st["p"] not in t or self._pending_under(st["p"]):
                     return "skip"
@@ -463,12 +471,16 @@ class Sim:
                     return "skip"
                 if any(self._cs_has_folder(c) for c in W.history.undo_list[-1:]):
                     self.taint["folder_moved_or_removed"] = True
+                if self._cs_moves_ignored(W.history.undo_list[-1]):
+                    self.taint["file_moved_to_ignored_name"] = True
                 W.history.undo()
             elif a == "c_redo":
                 if self.pending or not W.history.redo_list or not self._applicable(W.history.redo_list[-1], "redo"):
                     return "skip"
                 if any(self._cs_has_folder(c) for c in W.history.redo_list[-1:]):
                     self.taint["folder_moved_or_removed"] = True
+                if self._cs_moves_ignored(W.history.redo_list[-1]):
+                    self.taint["file_moved_to_ignored_name"] = True
                 W.history.redo()
             # ---------------- external editor, behind rope's back
             elif a == "e_edit":
@@ -639,6 +651,13 @@ class Sim:
             return self._clash(t, c.new_resource.path) or c.new_resource.path in t
         return False
 
+    def _cs_moves_ignored(self, c):
+        from rope.base import change as rc
+
+        if isinstance(c, rc.ChangeSet):
+            return any(self._cs_moves_ignored(x) for x in c.changes)
+        return isinstance(c, rc.MoveResource) and (c.resource.path.endswith("~") or c.new_resource.path.endswith("~"))
+
     def _cs_has_folder(self, c):
         from rope.base import change as rc
 
@@ -738,7 +757,7 @@ class CoherenceEngine(Engine):
             return "".join(rng.choice(SNIPPETS) for _ in range(n))
 
         if actor == "client":
-            k = rng.choice(["write"] * 4 + ["create_module"] * 2 + ["create_package", "move", "move", "remove", "refactor", "refactor", "refactor", "move_module", "to_package", "undo", "undo", "redo"])
+            k = rng.choice(["write"] * 4 + ["create_module"] * 2 + ["create_package", "move", "move", "remove", "remove", "refactor", "refactor", "refactor", "move_module", "to_package", "undo", "undo", "redo"])
             if k == "write" and pyfiles:
                 p = rng.choice(pyfiles)
                 cur = t[p].decode("utf-8", "replace")
@@ -755,6 +774,8 @@ class CoherenceEngine(Engine):
                 p = rng.choice(pyfiles + pkgs + [d for d in dirs if d]) if (pyfiles or pkgs) else rng.choice(files)
                 return {"a": "c_move", "p": p, "dest": rng.choice(dirs), "dt": dt}
             if k == "remove" and (files or len(dirs) > 1):
+                if files and rng.random() < 0.3:
+                    return {"a": "c_rename_to_ignored", "p": rng.choice(files), "dt": dt}
                 return {"a": "c_remove", "p": rng.choice(files + dirs[1:]), "dt": dt}
             if k == "refactor" and pyfiles:
                 if rng.random() < 0.3:
